@@ -541,6 +541,10 @@ var poolDescs = []Desc{
 	{Root: "basic float64"}, {Root: "basic int64"},
 	{Root: "basic uint8", Ops: []Op{{Kind: "slice"}}},
 	{Root: "basic int32", Ops: []Op{{Kind: "slice"}}},
+	{Root: "basic int", Ops: []Op{{Kind: "array", N: 0}}}, {Root: "basic int", Ops: []Op{{Kind: "array", N: 1}}},
+	{Root: "basic uint8", Ops: []Op{{Kind: "array", N: 0}}}, {Root: "basic uint8", Ops: []Op{{Kind: "array", N: 2}}},
+	{Root: "basic uint8", Ops: []Op{{Kind: "array", N: 16}}}, {Root: "basic string", Ops: []Op{{Kind: "array", N: 0}}},
+	{Root: "basic uint8", Ops: []Op{{Kind: "array", N: 0}, {Kind: "ptr"}}}, {Root: "basic uint8", Ops: []Op{{Kind: "array", N: 0}, {Kind: "slice"}}},
 	{Root: "type io Reader"}, {Root: "type io Writer"}, {Root: "type io ReadWriter"}, {Root: "type io Closer"}, {Root: "type io ReadCloser"},
 	{Root: "type fmt Stringer"}, {Root: "type sort Interface"}, {Root: "type time Duration"}, {Root: "type time Time"},
 	{Root: "type os File", Ops: []Op{{Kind: "ptr"}}}, {Root: "type bytes Buffer", Ops: []Op{{Kind: "ptr"}}},
@@ -670,6 +674,12 @@ func TestComposites(t *testing.T) {
 		}
 		if n >= 2 && rapid.Bool().Draw(t, "dup") {
 			c.Types[1] = c.Types[0] // the same type twice in one universe, possibly in the other order
+		} else if n >= 2 && rapid.Bool().Draw(t, "lenvariant") {
+			// the same type up to one array length (boundary lengths): identity must tell them apart, both ways
+			la := rapid.SampledFrom(boundaryLens).Draw(t, "la")
+			lb := rapid.SampledFrom(boundaryLens).Draw(t, "lb")
+			c.Types[0], c.Types[1] = lenVariants(c.Types[0], la, lb)
+			rec.Label("composite:length-variant")
 		}
 		for _, d := range c.Types {
 			if rt, err := rtypeOf(d); err == nil {
@@ -686,4 +696,89 @@ func TestComposites(t *testing.T) {
 			rec.Failf(t, "composites", data, "json", "%s", strings.Join(errs, "\n  "))
 		}
 	})
+}
+
+// ---------------------------------------------------------------- arrays of boundary lengths, bare and nested one level
+
+var boundaryLens = []int{0, 1, 2, 1000}
+
+// lenVariants returns d with its first array operation set to length la resp. lb; if d has
+// none, the array operation is inserted right after the navigation part (so it ends up
+// nested inside the constructions that follow).
+func lenVariants(d Desc, la, lb int) (Desc, Desc) {
+	mk := func(n int) Desc {
+		ops := append([]Op(nil), d.Ops...)
+		for i := range ops {
+			if ops[i].Kind == "array" {
+				ops[i].N = n
+				return Desc{Root: d.Root, Ops: ops}
+			}
+		}
+		nav := 0
+		for i, op := range ops {
+			switch op.Kind {
+			case "elem", "key", "field", "in", "out", "method":
+				nav = i + 1
+			}
+		}
+		out := append(append(append([]Op(nil), ops[:nav]...), Op{Kind: "array", N: n}), ops[nav:]...)
+		return Desc{Root: d.Root, Ops: out}
+	}
+	return mk(la), mk(lb)
+}
+
+var arrayElems = []Desc{
+	{Root: "basic int"}, {Root: "basic uint8"}, {Root: "basic string"}, {Root: "basic error"},
+	{Root: "type time Duration"}, {Root: "type time Time"}, {Root: "type io Reader"},
+	{Root: "type bytes Buffer", Ops: []Op{{Kind: "ptr"}}},
+}
+
+var strDesc = Desc{Root: "basic string"}
+
+// wrappers put the array one level inside another type
+var arrayWrappers = [][]Op{
+	nil,
+	{{Kind: "ptr"}}, {{Kind: "slice"}}, {{Kind: "array", N: 2}},
+	{{Kind: "chan", N: int(r.BothDir)}}, {{Kind: "chan", N: int(r.RecvDir)}},
+	{{Kind: "map", Other: &strDesc}}, {{Kind: "mapkey", Other: &strDesc}},
+	{{Kind: "func", Other: &strDesc}}, {{Kind: "vfunc", Other: &strDesc}}, {{Kind: "struct", Other: &strDesc}},
+}
+
+// TestArrayBoundaries: for every element type and wrapper, the arrays of all boundary
+// lengths in one fresh universe: built both ways (canonicity), attributes, and all
+// ordered pairs (identity and the predicates must separate [0]T from [n]T in both directions).
+func TestArrayBoundaries(t *testing.T) {
+	if rec.ReplayOnly() {
+		return
+	}
+	idx := 0
+	for _, e := range arrayElems {
+		for wi, w := range arrayWrappers {
+			for order := 0; order < 2; order++ {
+				idx++
+				if !rec.Mine(idx) {
+					continue
+				}
+				c := Case{}
+				for _, n := range boundaryLens {
+					ops := append(append([]Op(nil), e.Ops...), Op{Kind: "array", N: n})
+					ops = append(ops, w...)
+					d := Desc{Root: e.Root, Ops: ops}
+					if _, err := rtypeOf(d); err != nil {
+						rec.Label("array-boundary:not-constructible-by-reflect")
+						continue // e.g. channel element too large, map key not comparable
+					}
+					c.Types = append(c.Types, d)
+					c.Order = append(c.Order, order)
+				}
+				rec.Eval(1)
+				rec.Label(fmt.Sprintf("array-boundary:wrapper-%d", wi))
+				if errs := runCase(c, true); len(errs) > 0 {
+					data, _ := json.MarshalIndent(c, "", " ")
+					rec.Violation("array-boundaries:"+c.Types[0].String(), data, "json", "%s", strings.Join(errs, "\n  "))
+					t.Errorf("%s", strings.Join(errs, "\n  "))
+				}
+			}
+		}
+	}
 }
